@@ -116,10 +116,19 @@ def check(case):
     if v == (3, 4) and pad:
         c_extra["padding_cb"] = pad_cb_for(pad)
         s_extra["padding_cb"] = pad_cb_for(pad)
+    if case.get("hrr") and v == (3, 4):
+        # the handshake goes through a HelloRetryRequest (the limits are
+        # lifted for the second ClientHello and have to be put back)
+        c_extra.update(keyShares=["x25519"],
+                       eccCurves=["x25519", "secp256r1"])
+        s_extra.update(eccCurves=["secp256r1", "secp384r1"],
+                       keyShares=["secp256r1"])
     copts, sopts = sc.pin(suite, v, etm=etm, c_extra=c_extra,
                           s_extra=s_extra)
     labels = ["ver=%d.%d" % v, "kind=" + suite.kind +
               ("+etm" if etm and suite.kind == "cbc" else "")]
+    if case.get("hrr") and v == (3, 4):
+        labels.append("hrr")
     if case.get("resume"):
         # the data phase runs on a *resumed* connection (abbreviated
         # handshake: extensions are negotiated on another code path)
@@ -450,6 +459,7 @@ def case_strategy(draw, big):
     d["fill"] = draw(st.sampled_from(["prg", "prg", "zeros", "lead0",
                                       "trail0", "ff"]))
     d["resume"] = draw(st.integers(0, 3)) == 0
+    d["hrr"] = draw(st.integers(0, 2)) == 0
     d["ptype"] = draw(st.sampled_from(["bytes", "bytearray", "mixed"]))
     if draw(st.integers(0, 3)) == 0:
         d["fin"] = [draw(st.sampled_from(["c", "s"])),
@@ -483,6 +493,12 @@ def explicit(tier, seed):
         if v == (3, 4):
             d["pad13"] = [None, ["const", 7], ["fill"], ["mod", 64]][k % 4]
         yield d
+        if v == (3, 4):
+            d4 = dict(d)
+            d4["hrr"] = True
+            d4["c_rsl"], d4["s_rsl"] = [(512, 2 ** 14), (2 ** 14 + 1, 64),
+                                        (300, 300)][k % 3]
+            yield d4
         if k % 2 == 0:
             # same history on a resumed connection, zero-heavy payloads,
             # asymmetric limits, repeated KeyUpdates
